@@ -19,6 +19,10 @@ def plan(tier):
             "bed_comment_arbitrary_content", "gff_comment_arbitrary_content", "comment_first_line",
             "comment_last_line", "comment_between_lines", "csv_hostile_exhaustive", "bed_quote_and_backslash",
             "gff_hostile_attribute_atom",
+            # Record API as values: setters twice, copies mid-history, every accessor, iterator adaptors
+            "bed_setter_twice", "bed_record_clone_mid_history", "bed_record_clone_from", "bed_record_serde",
+            "bed_record_default", "gff_setter_twice", "gff_record_clone_mid_history", "gff_record_clone_from",
+            "gff_record_default", "gff_score_accessor_numeric", "records_iterator_adaptors",
             "bed_file_rewrite_shorter", "gff_file_rewrite_shorter", "gff_percent_escape_like_value",
         ],
         "rule": "file histories: Writer::to_file / Reader::from_file on one path, R1, shorter R2, empty, longer R4, each "
